@@ -1,5 +1,6 @@
 from math import log2
 from math import ceil
+import numbers
 import highspy
 from typing import Union
 import re
@@ -254,8 +255,9 @@ class SolverWrapper:
         
         # Normalize bounds to per-index arrays when necessary
         def _materialize_bounds(param, default_value, param_name):
-            # scalar
-            if isinstance(param, (int, float)):
+            # scalar (numbers.Real also covers numpy scalars such as np.int64 / np.float32, which are not
+            # instances of int / float and would otherwise fall through to the default bound below)
+            if isinstance(param, numbers.Real):
                 return [float(param)] * len(indexes)
             # dict mapping index -> value
             if isinstance(param, dict):
